@@ -3,6 +3,8 @@
 (*  window family : 4 slots, each empty / valid (revision 0, 1, 2; the revision-2 one also with a   *)
 (*                  non-zero byte behind the 36-byte structure) / decoy (signature, bad checksum;   *)
 (*                  revision 0 or 2) / near-miss signature with a good checksum, at most one valid; the two root tables list different tables  *)
+(*  neighbour family: decoys / near misses in the slot right before, or two slots before, another       *)
+(*                  candidate; a revision-0 candidate in model slot 4 sits in the last slot it fits in  *)
 (*  enum family   : root pointer fixed; every list of <= MaxT distinct tables over APIC, SSDT, HPET, *)
 (*                  FACP in every order with every good/bad assignment; FADT with 32-bit, 64-bit or  *)
 (*                  both DSDT pointers; DSDT good/bad; the other root table lists a different table; *)
@@ -32,7 +34,17 @@ CandSeq(w, i) == IF i > 4 THEN <<>> ELSE (IF w[i] = "none" THEN <<>> ELSE <<Cand
 WindowImages == { [cands |-> CandSeq(w, 1), rsdt |-> <<1>>, xsdt |-> <<2>>, xhigh |-> TRUE,
                    tables |-> <<T("APIC", 44, -1), TH("HPET", 56, -1, TRUE)>>] : w \in Windows }
 
-\* ---- enum family
+\* ---- neighbour family: candidates in adjacent slots (model slots 3, 5, 6 = real slots 4100, 4101, 4102).  A revision-0
+\* decoy or near miss may sit in the slot right before another candidate (its last 4 bytes are the neighbour's "RSD "),
+\* any revision-0 candidate two slots before one.
+Win(cs) == [cands |-> cs, rsdt |-> <<1>>, xsdt |-> <<2>>, xhigh |-> TRUE,
+            tables |-> <<T("APIC", 44, -1), TH("HPET", 56, -1, TRUE)>>]
+NeighbourImages ==
+  { Win(<<CandOf(3, d), CandOf(5, v)>>) : d \in {"D0", "N0"}, v \in {"V0", "V1", "V2", "V2t", "D2"} }
+  \cup { Win(<<CandOf(3, d), CandOf(6, v)>>) : d \in {"D0", "N0"}, v \in {"V0", "V2", "D0", "D2"} }
+  \cup { Win(<<CandOf(3, "V0"), CandOf(6, v)>>) : v \in {"D0", "D2"} }
+  \cup { Win(<<CandOf(3, "D0"), CandOf(5, "D0"), CandOf(6, v)>>) : v \in {"V0", "V2"} }
+
 Sigs == {"APIC", "SSDT", "HPET", "FACP"}
 LenOf(sig) == CASE sig = "APIC" -> 44 [] sig = "SSDT" -> 37 [] sig = "HPET" -> 56 [] OTHER -> 244
 BadAt(sig) == CASE sig = "APIC" -> 9 [] sig = "SSDT" -> 36 [] sig = "HPET" -> 8 [] OTHER -> 243     \* checksum byte, last byte, revision byte, last byte
@@ -61,5 +73,5 @@ MCEnumImages ==
   \cup UNION { { Mk(rev, q, goods, mode, dg, hi) : goods \in [1..Len(q) -> BOOLEAN], dg \in BOOLEAN, hi \in His(rev),
                                                    mode \in (IF rev = 0 THEN {"32", "both"} ELSE {"32", "64", "both"}) }
                : rev \in {0, 2}, q \in {l \in Lists : HasFadt(l)} }
-MCImages == WindowImages \cup MCEnumImages
+MCImages == WindowImages \cup NeighbourImages \cup MCEnumImages
 ====
